@@ -918,6 +918,30 @@ type c19Run struct {
 	obs      string // non-empty while the closing observation runs: prefix of violation signatures
 	taint    string // the model's taint before the current step
 	needIter bool   // the history contains an "iter" step
+	held     []c19Held
+}
+
+// c19Held: a string an operation returned, kept as delivered (the Go string shares its bytes with the
+// Lua value) next to a private copy taken at once. A Lua string is a value: whatever the handle does
+// afterwards - refill or slide its read buffer, write, seek, close - the bytes a read returned must
+// stay what they were. Compared at the end of every history.
+type c19Held struct {
+	step       int
+	live, copy string
+}
+
+func (x *c19Run) heldCheck() bool {
+	for _, h := range x.held {
+		if h.live != h.copy {
+			op := "open"
+			if h.step >= 0 && h.step < len(x.ops) {
+				op = c19OpSigName(&x.ops[h.step])
+			}
+			x.viol(len(x.ops)-1, "returned-string-changed-later/"+op+"/"+x.root, fmt.Sprintf("the string returned by step %d read %s when it was returned and reads %s at the end of the history: it shares memory with the handle's buffer", h.step+1, c19Str([]byte(h.copy)), c19Str([]byte(h.live))))
+			return false
+		}
+	}
+	return true
 }
 
 func (x *c19Run) viol(step int, sig, what string) {
@@ -1081,6 +1105,11 @@ func (x *c19Run) step(i int, op *c19Op, last bool) bool {
 		return false
 	}
 	got := c19ValsOf(res)
+	for _, g := range got {
+		if g.K == 's' && len(g.S) > 0 {
+			x.held = append(x.held, c19Held{i, g.S, strings.Clone(g.S)})
+		}
+	}
 	bad := ""
 	switch e.judge {
 	case '1':
@@ -1193,6 +1222,9 @@ func (c *c19Ctx) run(w *c19Worker, initIdx int, mode string, ops []c19Op) (key [
 		}
 	}
 	if !x.diskCheck(len(ops)-1, "final/after-"+lastKind) {
+		return key, false, false
+	}
+	if !x.heldCheck() {
 		return key, false, false
 	}
 	if x.m.shared {
